@@ -103,6 +103,13 @@ def run_solve(case, record):
     cov = {r: (a, b) for r, a, b in case["cov"]}
     fus = None if case["fusion"] is None else {k: float(fus_q(v)) for k, v in case["fusion"]}
     snap = None
+    if case.get("history"):
+        # an earlier call in the same process, on the SAME dictionary of configurations, with a long-read fusion-support table: the call
+        # that is judged (no table) must see every configuration the caller supplied
+        try:
+            solve_cn_model(g, prof, configs, case["max_cn"], cov, "any", None, {k: float(fus_q(v)) for k, v in case["history"]["fusion"]})
+        except Exception:
+            pass
     try:
         if record:
             with lprec.Recorder() as rec:
@@ -862,6 +869,8 @@ def run(chk):
     if os.path.exists(corpus):
         cases += json.load(open(corpus))
     cases += [gen_solve_case(chk.rng) for _ in range(n_solve)]
+    hist = [c for c in cases if c.get("kind") == "solve" and c.get("fusion")]
+    cases += [dict(c, fusion=None, history={"fusion": c["fusion"]}) for c in hist[:(12 if q else 200)]]
     cases += [gen_estimate_case(chk.rng) for _ in range(n_est)]
     evaluate(chk, cases, n_struct_big=12 if q else 150, n_table=60 if q else 600)
 
